@@ -164,6 +164,7 @@ class Recorder:
         self._pred_calls = []
         self._fit_calls = 0
         self.sampler = None
+        self.requested_n_total = None  # what the caller passed to run(); set by the driver
         self.saves = {}   # path -> snapshot taken at save_begin
         self.loads = []   # loads observed outside a run
         self._pending_load = None
@@ -333,12 +334,12 @@ class Recorder:
             "cap": int(cfgo.n_max_clusters) if cfgo.n_max_clusters else 0,
             "blobs": bool(cfgo.blobs_dtype is not None),
             "target": _R("ess", cfgo.ess_ratio * cfgo.n_particles * (1 - RTOL)),
-            "nTotal": _R("ess", core.n_total * (1 - RTOL)),
+            "nTotal": _R("ess", (self.requested_n_total if self.requested_n_total is not None else core.n_total) * (1 - RTOL)),
             "one": _R("beta", 1.0),
             "minSweeps": int(cfgo.n_steps * cfgo.n_dim),
             "maxSweeps": int(max(cfgo.n_max_steps, cfgo.n_steps) * cfgo.n_dim),
         }
-        self._meta = {"label": self.label, "resumed": bool(r["resumed"]), "n_total": int(core.n_total),
+        self._meta = {"label": self.label, "resumed": bool(r["resumed"]), "n_total": int(core.n_total), "requested_n_total": self.requested_n_total,
                       "kernel": cfgo.sample, "resample": cfgo.resample, "vectorize": bool(cfgo.vectorize)}
         self._prefix_digests = self._batch_digests(st)
         self._mark = self.evals
